@@ -322,6 +322,9 @@ def race_once(plan_, ncallers, outcome, tape_msgs):
     finally:
         remove_destination(rec)
     problems = ["caller %s raised %r outside the call" % (n, e) for n, e in errs.items()]
+    if st["deadlock"]:
+        problems.append("invocations of the preserved callable deadlocked: %s" % st["deadlock"])
+        return st, problems, False
     if st["aborted"]:
         return st, problems, True
     if g is f:
